@@ -62,6 +62,11 @@ class ConvModel(object):
             sr = spikeglx.Reader(ap)
             sr.compress_file(keep_original=False)
             sr.close()
+        if self.source == "meta-shorter":
+            # the metadata was written before the last 100 samples reached the disk: the file holds more than it declares
+            fm = str(ap.with_suffix(".meta"))
+            items = synth.meta_items(kind, _sites(self.kind), NS - 100)
+            open(fm, "w").write(synth.meta_text(items))
         snap = histories.snapshot(root)
         meta = open(os.path.join(root, np2.LABEL, np2.STEM + ".ap.meta"), "rb").read()
         info = dict(kind=self.kind, completed=False, orig_meta_sha=histories.hashlib.sha1(meta).hexdigest())
@@ -77,6 +82,9 @@ class ConvModel(object):
         if self.kind.startswith("NP2.4"):
             for ow in (False, True):
                 ev.append(dict(name="run", target="shank", overwrite=ow, post_check=True, compress=True, delete_original=True))
+            # two process() calls on the SAME converter object (state carried from one call to the next)
+            for ow, again, comp in ((False, True, True), (False, True, False), (False, False, True), (True, False, False), (True, True, True)):
+                ev.append(dict(name="run", target="orig", overwrite=ow, post_check=True, compress=comp, delete_original=False, again=again))
         if self.kind in ("NP1", "NP2.1"):
             ev = [e for e in ev if e["target"] == "orig"]
             if self.kind == "NP1":
@@ -113,9 +121,22 @@ class ConvModel(object):
         obs = dict(status=None, exc=None)
         with faults.watch(root, crash_at=crash_at, steps=steps) as w:
             try:
-                status, conv = np2.convert(target, nwindow=NWINDOW, overwrite=event["overwrite"], post_check=event["post_check"],
-                                           compress=event["compress"], delete_original=event["delete_original"])
-                obs["status"] = int(status)
+                if event.get("again") is None:
+                    status, conv = np2.convert(target, nwindow=NWINDOW, overwrite=event["overwrite"], post_check=event["post_check"],
+                                               compress=event["compress"], delete_original=event["delete_original"])
+                    obs["status"] = int(status)
+                else:
+                    conv = neuropixel.NP2Converter(target, post_check=event["post_check"], compress=event["compress"], delete_original=event["delete_original"])
+                    conv.init_params(nwindow=NWINDOW)
+                    try:
+                        obs["status"] = int(conv.process(overwrite=event["overwrite"]))
+                        obs["canon_between"] = histories.canon(histories.snapshot(root))
+                        obs["status2"] = int(conv.process(overwrite=event["again"]))
+                    finally:
+                        try:
+                            conv.sr.close()
+                        except Exception:
+                            pass
                 conv = None
             except faults.Crash:
                 raise
@@ -285,6 +306,18 @@ class ConvModel(object):
                 if exc is not None:
                     key = "run:exc:overwrite" if event["overwrite"] else "run:exc"
                     viol.append((key, "%s: process() raised %s (pre-state: %s)" % (ctx, exc, histories.listing(snap))))
+                elif event.get("again") is not None:
+                    st2 = obs.get("status2")
+                    if event["again"]:
+                        prob = self.valid_output(root)
+                        if st2 != 1 or prob:
+                            viol.append(("S3:forced-run:same-object", "%s then process(overwrite=True) on the same converter object: returns %r and leaves: %s"
+                                         % (ctx, st2, "; ".join(prob[:3]) or "valid output")))
+                    else:
+                        if (status == 1 or info.get("completed")) and (st2 != 0 or c2 != obs.get("canon_between")):
+                            viol.append(("S1:repeated-run:same-object", "%s then process() again on the same converter object: returns %r and %s the directory"
+                                         % (ctx, st2, "changes" if c2 != obs.get("canon_between") else "keeps")))
+                    info2["completed"] = False
                 elif self.kind == "NP1":
                     if status != -1 or c2 != pre_canon:
                         viol.append(("S2:not-NP2", "%s: an NP1 recording gives status %r and %s the directory" % (ctx, status, "changes" if c2 != pre_canon else "keeps")))
@@ -323,7 +356,8 @@ class ConvModel(object):
 
 
 def _evstr(e):
-    return "run(%s, overwrite=%s, post_check=%s, compress=%s, delete_original=%s)" % (e["target"], e["overwrite"], e["post_check"], e["compress"], e["delete_original"])
+    return "run(%s, overwrite=%s, post_check=%s, compress=%s, delete_original=%s%s)" % (
+        e["target"], e["overwrite"], e["post_check"], e["compress"], e["delete_original"], "" if e.get("again") is None else ", then again overwrite=%s" % e["again"])
 
 
 def _mk(kind, source="bin"):
@@ -333,7 +367,9 @@ def _mk(kind, source="bin"):
         model = ConvModel(kind, tier, source)
         if kind == "NP1":
             depth, faults_ = 2, 1
-        return histories.bfs(model, "histories-%s%s" % (kind, "" if source == "bin" else "-cbin"), tier, jobs, depth, faults_,
+        if source == "meta-shorter" and tier == "quick":
+            depth = 1
+        return histories.bfs(model, "histories-%s%s" % (kind, "" if source == "bin" else "-" + source), tier, jobs, depth, faults_,
                              cap_states=None if tier == "quick" else 400)
     return run
 
@@ -346,6 +382,8 @@ def _replay(case):
     source = "bin"
     if kind.endswith("-cbin"):
         kind, source = kind[:-5], "cbin"
+    if kind.endswith("-meta-shorter"):
+        kind, source = kind[:-13], "meta-shorter"
     model = ConvModel(kind, "quick", source)
     (snap, info), = model.initial()
     root = os.path.join(synth.proc_scratch(), "c04_replay")
@@ -384,6 +422,7 @@ CHECK = {
     "clauses": [
         Clause("histories-NP2.4", "BFS over run histories, NP2.4 from .bin", run=_mk("NP2.4"), replay=_replay),
         Clause("histories-NP2.4-cbin", "BFS over run histories, NP2.4 from a compressed original", run=_mk("NP2.4", "cbin"), replay=_replay),
+        Clause("histories-NP2.4-meta-shorter", "BFS over run histories, NP2.4 whose binary holds more samples than its metadata declares", run=_mk("NP2.4", "meta-shorter"), replay=_replay),
         Clause("histories-NP2.1", "BFS over run histories, NP2.1", run=_mk("NP2.1"), replay=_replay),
         Clause("histories-NP1", "NP1 recordings are refused and untouched", run=_mk("NP1"), replay=_replay),
     ],
